@@ -42,6 +42,8 @@ op = st.one_of(
     st.tuples(st.just("advance"), st.sampled_from([0, 1, 10, 40, 100, 500])).map(list),
 )
 # compound operation: something that ends a ball, a short gap, then a request - lands requests in the turn transitions
+GAP_PHASES = ("ball_will_end", "ball_ending", "player_turn_will_end", "player_turn_ending", "player_turn_ended",
+              "player_turn_will_start", "player_turn_starting")
 simple_req = st.sampled_from([["start"], ["end_game"], ["extra_ball"], ["end_ball"], ["add_ball", 1], ["slam_tilt"]])
 then_op = st.tuples(st.just("then"), st.sampled_from([["drain", 1], ["drain", 2], ["end_ball"]]),
                     st.sampled_from([0, 1, 2, 5, 10, 20, 40]), simple_req).map(list)
@@ -302,6 +304,13 @@ def check(case):
                 elif k == "end_ball":
                     if g is not None and acc.phase in ("ball_will_start", "ball_starting", "ball_started"):
                         ball_must_end()
+                        ev.post("end_ball")
+                        rig.run_ready()
+                    elif g is not None and not g.ending and acc.phase in GAP_PHASES:
+                        # a request while no ball is in progress concerns no ball: it must not end the next one
+                        # (phases next to the point where the game arms the next ball are left out: the request could
+                        # land on either side of it)
+                        classes.add("end-request-between-balls")
                         ev.post("end_ball")
                         rig.run_ready()
                 elif k == "end_game":
